@@ -55,7 +55,7 @@ out += ['', 'Notes on the rows that do not AGREE:', '',
         '  ready callbacks within an iteration, and on the real loop the main scope won (the run fails with the node error',
         '  instead of hanging). The virtual witness replays deterministically (`./check replay witnesses/KF-REC2.json`).',
         '* KF-POOLWINDOW: the real replay uses unbounded pools and no cancellation, so the window cannot occur there; the',
-        '  mechanism is argued from CPython (`Task.cancel` -> `_fut_waiter.cancel()` -> `_call_check_cancel` via `call_soon`).',
+        '  mechanism is argued from CPython (`Task.cancel` -> `_fut_waiter.cancel()` -> `_call_check_cancel` via `call_soon`) and reproduced separately on a real loop with a one-worker thread pool: `cd /repo && /venv/bin/python /verif/witnesses/KF-POOLWINDOW-real-demo.py` (exit 1 = window observed).',
         '* Witnesses of sequence / overlap / store-on-disk / build-time / real-pool defects are not single virtual runs and',
         '  are listed as not applicable. Every other witness, including every deadlock, reproduces on the real loop.']
 open(os.path.join(VERIF, 'witnesses', 'REAL_LOOP_CROSSCHECK.md'), 'w').write('\n'.join(out) + '\n')
